@@ -66,8 +66,12 @@ pub fn run_c09(cfg: &ShardCfg, out: &mut ShardOut) {
         let profile = *rng.pick(&[Profile::Mixed, Profile::Mixed, Profile::Cross, Profile::Full, Profile::Labels, Profile::ReAdd]);
         let cap = if profile == Profile::Full { cap.max(40) } else { cap };
         let mut gen = Gen::new(rng.next(), profile, n, cap);
+        if rng.chance(1, 5) {
+            // images of graphs that use the last group slots
+            gen.many_groups_prelude(cap.max(30));
+        }
         let mut s = Session::new(n, cap, &cfg.work);
-        let len = rng.range(15, 150);
+        let len = rng.range(15, 150) + gen.prelude.len();
         let mut ok = true;
         for _ in 0..len {
             let op = gen.next_op(&s.m);
